@@ -1577,7 +1577,7 @@ def K04(p):
             for k in range(1, len(ln.lex)):
                 if ln.lex[k].k != "sp" and ln.lex[k - 1].k == "sp":
                     def ap(q, i=i, k=k):
-                        q.lines[i].lex[k:k] = [Lx("/* limit */", "cmt"), SP()]
+                        q.lines[i].lex[k:k] = [Lx("/* limit */" if (i + k) % 2 else "/* LIMIT */", "cmt"), SP()]
                         return i
                     yield ln.kind, ap
 
